@@ -544,11 +544,14 @@ def clade_family_input(rng, no, ns, nf, ordered=False):
 
 def simulated_inputs(rng, n, no_max, ns_max, nf, ordered, min_leaves=3):
     """n inputs from the forward simulator of the event model (dp_common.simulated_input)."""
+    regimes = [{},                                                                       # balanced
+               {"p_dup": 0.4, "p_hgt": 0.05, "p_loss": 0.05, "p_seg": 0.5, "p_gain": 0.3},   # paralog-rich: nested duplications inside few species
+               {"p_dup": 0.1, "p_hgt": 0.35, "p_loss": 0.1}]                                  # transfer-rich
     out = []
     tries = 0
     while len(out) < n and tries < 50 * n:
         tries += 1
-        d = D.simulated_input(rng, no_max, rng.randint(2, ns_max), nf, ordered)
+        d = D.simulated_input(rng, no_max, rng.randint(2, ns_max), nf, ordered, **regimes[tries % 3])
         if d is not None and len(d["leafmap"]) >= min_leaves:
             out.append(d)
     return out
